@@ -171,6 +171,12 @@ func (ec *evalCtx) genHook(call *ast.CallExpr, fn *types.Func, recv Value, args 
 		if gi.props["C12"] {
 			ec.scriptBeforeUseObligation(call)
 		}
+		// after a value the literal no longer ends with the $ of the constant text
+		if cur := htmlCtxOf(st); cur != nil {
+			if next := mapCtx(cur, func(k string) *Term { return Str(strings.TrimSuffix(k, ":dollar")) }); next != nil {
+				st.ghost["htmlctx"] = next
+			}
+		}
 	case "(" + modulePath + ".Component).Render":
 		if gi.props["C13"] {
 			ec.childrenObligation(call)
@@ -235,6 +241,9 @@ func sinkLanguage(k string) string {
 		case "\"":
 			return "JS_DQ_SINK"
 		case "`":
+			if s.Dol {
+				return "JS_BT_AFTER_DOLLAR_SINK" // the literal so far ends with $: a value that starts with { opens an interpolation
+			}
 			return "JS_BT_SINK"
 		}
 	}
